@@ -4,3 +4,5 @@ import Lungo.Model.Compare
 import Lungo.Model.Json
 import Lungo.Model.GridFS
 import Lungo.Spec.Reader
+import Lungo.Spec.Chunks
+import Lungo.Proofs.GridFSChunks
